@@ -406,128 +406,152 @@ func predicateTables(c *core.Ctx, r *core.Report) {
 		}
 		r.Check(bad == "", "C06.R2", cons, c.FnPos(ctor), fmt.Sprintf("the predicate is exactly %s (%d abstract runs) %s", what, runs, bad))
 	}
-	// FuncName: decision table
-	if ctor := c.Func("container", "FuncName"); ctor != nil && len(ctor.AnonFuncs) == 1 {
-		lit := ctor.AnonFuncs[0]
+	// FuncName / FuncNameAndResult: the constructor is interpreted, then the predicate it returns is applied to a
+	// candidate whose reflect surface is modelled (whatever closures / helpers the predicate is made of)
+	apply := func(ctor *ssa.Function, ctorArgs []absint.Value, t *tbl, m absint.Value) absint.Outcome {
+		ip := absint.New(t)
+		ip.IsLog = core.IsLogCall
+		ip.InScope = c.InScope
+		out := ip.Run(ctor, ctorArgs, nil)
+		if out.Undecided != nil || out.Panic != nil || len(out.Ret) != 1 {
+			return out
+		}
+		switch f := out.Ret[0].(type) {
+		case *absint.Closure:
+			return ip.Run(f.Fn, []absint.Value{m}, f.Bind)
+		case *ssa.Function:
+			return ip.Run(f, []absint.Value{m}, nil)
+		}
+		return absint.Outcome{Undecided: &absint.Undecided{Msg: "the constructor did not return a function"}}
+	}
+	if ctor := c.Func("container", "FuncName"); ctor != nil {
 		bad := ""
 		runs := 0
 		for _, has := range []bool{true, false} {
 			for _, numOut := range []int64{0, 1} {
 				for _, valid := range []bool{true, false} {
 					var asked []string
-					build := func() (absint.Oracle, []absint.Value, []absint.Value) {
-						asked = nil
-						t := newTbl(c)
-						m := absint.NewTok("m", "meta")
-						t.invokeN["MethodByName"] = func(ip *absint.Interp, a []absint.Value) absint.Value {
-							asked = append(asked, absint.Show(a[1]))
-							mt := absint.NewTok("method", "rmethod")
-							ft := absint.NewTok("method.Type", "type")
-							mt.Fields["Type"] = ft
-							return absint.Tuple{mt, absint.Bool(has)}
-						}
-						t.ext["(reflect.Value).MethodByName"] = func(ip *absint.Interp, a []absint.Value) absint.Value {
-							asked = append(asked, absint.Show(a[1]))
-							return absint.NewTok("methodValue", "rvalue")
-						}
-						t.ext["(reflect.Value).IsValid"] = func(ip *absint.Interp, a []absint.Value) absint.Value { return absint.Bool(valid && has) }
-						t.invokeN["NumOut"] = func(ip *absint.Interp, a []absint.Value) absint.Value { return absint.Int(numOut) }
-						return t, []absint.Value{m}, []absint.Value{&absint.Cell{V: absint.Str("wanted")}}
+					t := newTbl(c)
+					m := absint.NewTok("m", "meta")
+					t.invokeN["MethodByName"] = func(ip *absint.Interp, a []absint.Value) absint.Value {
+						asked = append(asked, absint.Show(a[1]))
+						mt := absint.NewTok("method", "rmethod")
+						mt.Fields["Type"] = absint.NewTok("method.Type", "type")
+						return absint.Tuple{mt, absint.Bool(has)}
 					}
-					check := func(ip *absint.Interp, out absint.Outcome) {
-						want := has && numOut == 0 && valid
-						okName := len(asked) > 0
-						for _, a := range asked {
-							if a != "\"wanted\"" {
-								okName = false
-							}
-						}
-						if out.Panic != nil || len(out.Ret) != 1 || out.Ret[0] != absint.Value(absint.Bool(want)) || !okName {
-							bad = fmt.Sprintf("hasMethod=%v numOut=%d valid=%v asked=%v => %s, want %v", has, numOut, valid, asked, showOutcome(out), want)
+					t.ext["(reflect.Value).MethodByName"] = func(ip *absint.Interp, a []absint.Value) absint.Value {
+						asked = append(asked, absint.Show(a[1]))
+						return absint.NewTok("methodValue", "rvalue")
+					}
+					t.ext["(reflect.Value).IsValid"] = func(ip *absint.Interp, a []absint.Value) absint.Value { return absint.Bool(valid && has) }
+					t.invokeN["NumOut"] = func(ip *absint.Interp, a []absint.Value) absint.Value { return absint.Int(numOut) }
+					out := apply(ctor, []absint.Value{absint.Str("wanted")}, t, m)
+					runs++
+					want := has && numOut == 0 && valid
+					okName := len(asked) > 0
+					for _, a := range asked {
+						if a != "\"wanted\"" {
+							okName = false
 						}
 					}
-					if len(lit.FreeVars) == 1 {
-						if _, isPtr := lit.FreeVars[0].Type().Underlying().(*types.Pointer); !isPtr {
-							b2 := build
-							build = func() (absint.Oracle, []absint.Value, []absint.Value) {
-								o, a, _ := b2()
-								return o, a, []absint.Value{absint.Str("wanted")}
-							}
-						}
-					}
-					k, u := runTable(c, lit, build, check)
-					runs += k
-					if u != "" {
-						bad = "left the model: " + u
+					switch {
+					case out.Undecided != nil:
+						bad = "left the model: " + out.Undecided.Msg
+					case out.Panic != nil || len(out.Ret) != 1 || out.Ret[0] != absint.Value(absint.Bool(want)) || !okName:
+						bad = fmt.Sprintf("hasMethod=%v numOut=%d valid=%v asked=%v => %s, want %v", has, numOut, valid, asked, showOutcome(out), want)
 					}
 				}
 			}
 		}
-		r.Check(bad == "", "C06.R2", "predicate:container.FuncName:table", c.FnPos(ctor), fmt.Sprintf("FuncName accepts exactly the components that have a method of the requested name without results (%d abstract runs) %s", runs, bad))
+		r.Check(bad == "", "C06.R2", "predicate:container.FuncName:table", c.FnPos(ctor), fmt.Sprintf("FuncName accepts exactly the components that have a method of the requested name without results, looked up by that name (%d abstract runs) %s", runs, bad))
 	} else {
-		r.Undecided("C06.R2", "predicate:container.FuncName:table", "", "container.FuncName (with exactly one closure) not found")
+		r.Undecided("C06.R2", "predicate:container.FuncName:table", "", "container.FuncName not found")
 	}
-	// FuncName / FuncNameAndResult: must look the method up by the requested name
-	for _, pn := range []string{"FuncName", "FuncNameAndResult"} {
-		ctor := c.Func("container", pn)
-		cons := "predicate:container." + pn
-		if ctor == nil || len(ctor.AnonFuncs) != 1 {
-			r.Undecided("C06.R2", cons, "", "predicate constructor not found")
-			continue
-		}
-		lit := ctor.AnonFuncs[0]
-		n := 0
-		ok := true
-		for _, ci := range core.Calls(lit) {
-			cal := core.Callee(ci.Common())
-			isMBN := (cal != nil && cal.String() == "(reflect.Value).MethodByName") || (ci.Common().IsInvoke() && ci.Common().Method.Name() == "MethodByName")
-			if !isMBN {
-				continue
-			}
-			n++
-			arg := ci.Common().Args[len(ci.Common().Args)-1]
-			fromFn := false
-			for _, o := range core.Origins(arg, nil) {
-				if o == ssa.Value(ctor.Params[0]) {
-					fromFn = true // the spilled parameter, seen through its single-store cell
-				}
-				fv, isFV := o.(*ssa.FreeVar)
-				if !isFV {
-					continue
-				}
-				// the free variable is bound to the constructor's first parameter (the requested method name)
-				for _, b := range ctor.Blocks {
-					for _, in := range b.Instrs {
-						mc, isMC := in.(*ssa.MakeClosure)
-						if !isMC {
-							continue
-						}
-						for i, f2 := range lit.FreeVars {
-							if f2 == fv && i < len(mc.Bindings) {
-								bnd := mc.Bindings[i]
-								if st := core.SingleStore(bnd); st != nil {
-									bnd = st
+	if ctor := c.Func("container", "FuncNameAndResult"); ctor != nil {
+		bad := ""
+		runs := 0
+		for _, valid := range []bool{true, false} {
+			for _, wantRes := range []string{"*", "", "x"} {
+				for _, nRes := range []int{0, 1} {
+					for _, match := range []bool{true, false} {
+						for _, parseErr := range []bool{true, false} {
+							var asked []string
+							called := 0
+							t := newTbl(c)
+							m := absint.NewTok("m", "meta")
+							parsed := absint.NewTok("parsed("+wantRes+")", "any")
+							t.invokeN["MethodByName"] = func(ip *absint.Interp, a []absint.Value) absint.Value {
+								asked = append(asked, absint.Show(a[1]))
+								mt := absint.NewTok("method", "rmethod")
+								mt.Fields["Type"] = absint.NewTok("method.Type", "type")
+								return absint.Tuple{mt, absint.Bool(valid)}
+							}
+							t.invokeN["NumOut"] = func(ip *absint.Interp, a []absint.Value) absint.Value { return absint.Int(int64(nRes)) }
+							t.ext["(reflect.Value).MethodByName"] = func(ip *absint.Interp, a []absint.Value) absint.Value {
+								asked = append(asked, absint.Show(a[1]))
+								return absint.NewTok("methodValue", "rvalue")
+							}
+							t.ext["(reflect.Value).IsValid"] = func(ip *absint.Interp, a []absint.Value) absint.Value { return absint.Bool(valid) }
+							t.ext["(reflect.Value).Call"] = func(ip *absint.Interp, a []absint.Value) absint.Value {
+								called++
+								if !valid {
+									panic(&absint.GoPanic{Msg: "reflect: call of reflect.Value.Call on zero Value"})
 								}
-								if core.Norm(bnd) == ssa.Value(ctor.Params[0]) {
-									fromFn = true
+								l := &absint.List{}
+								for i := 0; i < nRes; i++ {
+									l.Elems = append(l.Elems, absint.NewTok("result", "rvalue"))
 								}
+								return l
+							}
+							t.ext["(reflect.Value).Interface"] = func(ip *absint.Interp, a []absint.Value) absint.Value {
+								switch {
+								case !match:
+									return absint.NewTok("other", "any")
+								case parseErr:
+									return absint.Str(wantRes)
+								}
+								return parsed
+							}
+							t.ext["github.com/go-kid/strconv2.ParseAny"] = func(ip *absint.Interp, a []absint.Value) absint.Value {
+								if parseErr {
+									return absint.Tuple{absint.Nil{}, t.newErr("parse")}
+								}
+								return absint.Tuple{parsed, absint.Nil{}}
+							}
+							out := apply(ctor, []absint.Value{absint.Str("wanted"), absint.Str(wantRes)}, t, m)
+							runs++
+							var want bool
+							switch {
+							case !valid:
+								want = false
+							case wantRes == "*":
+								want = true
+							case nRes == 0:
+								want = wantRes == ""
+							default:
+								want = match
+							}
+							okName := len(asked) > 0
+							for _, a := range asked {
+								if a != "\"wanted\"" {
+									okName = false
+								}
+							}
+							w := fmt.Sprintf("valid=%v result=%q results=%d equal=%v parseErr=%v asked=%v calls=%d => %s, want %v", valid, wantRes, nRes, match, parseErr, asked, called, showOutcome(out), want)
+							switch {
+							case out.Undecided != nil:
+								bad = "left the model: " + out.Undecided.Msg
+							case out.Panic != nil || len(out.Ret) != 1 || out.Ret[0] != absint.Value(absint.Bool(want)) || !okName || called > 1:
+								bad = w
 							}
 						}
 					}
 				}
 			}
-			if !fromFn {
-				ok = false
-			}
 		}
-		// a miss returns false
-		missFalse := false
-		for _, ret := range core.Returns(lit) {
-			if k, isK := ret.Results[0].(*ssa.Const); isK && k.Value != nil && k.Value.String() == "false" {
-				missFalse = true
-			}
-		}
-		r.Check(ok && n >= 1 && missFalse, "C06.R2", cons, c.FnPos(ctor), "the predicate looks the method up by the requested name and rejects components without it")
+		r.Check(bad == "", "C06.R2", "predicate:container.FuncNameAndResult:table", c.FnPos(ctor), fmt.Sprintf("FuncNameAndResult accepts exactly the components whose method of the requested name returns the requested result ('*' any, '' also none), calling it at most once (%d abstract runs) %s", runs, bad))
+	} else {
+		r.Undecided("C06.R2", "predicate:container.FuncNameAndResult:table", "", "container.FuncNameAndResult not found")
 	}
 }
 
